@@ -44,6 +44,7 @@ type c16World struct {
 	lastRowTag  int64
 	beginOpts   []driver.TxOptions
 	noFail      bool // the driver does not fail (the part of a run that only sets the stage)
+	lastFailed  bool // the most recent driver call failed
 }
 
 func (w *c16World) rec(op, query string, args []driver.NamedValue) {
@@ -52,11 +53,12 @@ func (w *c16World) rec(op, query string, args []driver.NamedValue) {
 
 // fails decides (symbolically) whether the underlying driver call fails.
 func (w *c16World) fails() bool {
+	w.lastFailed = false
 	if w.noFail {
 		return false
 	}
 	if vrt.Bool("driver.fails") {
-		w.failed = true
+		w.failed, w.lastFailed = true, true
 		return true
 	}
 	return false
@@ -373,6 +375,11 @@ func VerifC16Tx() {
 	}
 	if err != nil {
 		vrt.Assert(errors.Is(err, c16Err), "tx/error-is-the-drivers-error")
+	}
+	if len(w.journal) == len(want) && len(want) == 3 {
+		// Begin, Exec and then Commit / Rollback reached the driver: what the application
+		// hears from Commit / Rollback is what the driver answered
+		vrt.Assert((err != nil) == w.lastFailed, "tx/commit-or-rollback-fails-iff-the-driver-failed")
 	}
 }
 
